@@ -73,6 +73,16 @@ DESC = {
  "r5C16": ("eval_decimal Lambert W warm-starts from a thread-local root left by the previous nearby evaluation", "two Lambert W evaluations with arguments within 6% of each other on one thread"),
  "r5C19": ("eval_decimal rounds literals with a fraction and 29 significant digits to 28", "reading back a full-precision result (`4/3`)"),
  "r5C20": ("eval_decimal: a closing bracket takes a following superscript before the enclosing operator can", "`-(1+2)²` against `-@²`"),
+ "r6C05": ("eval_f64 evaluates `a*b - c*d` with Kahan's fused difference of products (fma): the two products are no longer rounded on their own", "a subtraction whose both operands are products with inexact (or overflowing) products"),
+ "r6C06": ("eval_i64 factorial operand narrowed with `as u32` while porting the `!`-chain loop", "`x!` with x >= 2^32 (`4294967296!` is 1 instead of an overflow error)"),
+ "r6C07": ("eval_decimal literal fast path builds the coefficient in a u64 and casts to i64; bound of 19 digits", "a 19-digit literal above i64::MAX (`9223372036854775808` becomes negative)"),
+ "r6C08": ("eval_complex reads `2i^2` as 2*(i^2): an imaginary literal with a coefficient loses it as the base of a power", "imaginary literal with a coefficient other than 1 directly followed by `^` or a superscript"),
+ "r6C09": ("eval_number `floor(a/b)` on Integers takes `checked_div_euclid`", "inexact quotient with a negative divisor (`floor(7/-2)`)"),
+ "r6C10": ("eval_number / eval_decimal factorial chain stops as soon as the value is <= 2", "`x!!` with a non-integer x whose factorial is below 2 (`0.5!!`)"),
+ "r6C11": ("eval_number Integer/Float comparison drops the range guards and relies on the saturating cast", "min/max/med over i64::MAX and a Float >= 2^63 (or i64::MIN and a Float < -2^63)"),
+ "r6C15": ("`From<f64> for Number` snaps doubles within 2-4 ulps of an integer to that Integer", "a rounded operation whose double result is next to an integer (`log(1000,10)`, `root(3,125)`)"),
+ "r6C17": ("lib.rs re-exports eval_f64 whenever eval_number or eval_complex is selected", "a feature subset with eval_number or eval_complex and without eval_f64"),
+ "r6C18": ("eval_number floor/ceil/round/trunc convert an Integer operand to f64 and back", "Integer above 2^53 through a rounding function (`ceil(@)` with @ = 2^53+1)"),
 }
 rows = []
 for d in sorted(glob.glob(os.path.join(V, "seeded", "*"))):
